@@ -5,6 +5,11 @@ ROOT = os.path.dirname(os.path.dirname(os.path.abspath(__file__)))
 
 # id -> (level category, technique, level text, level note, design ref)
 CHECKS = {
+ "C15": ("exploration",
+   "exhaustive boundary-grid enumeration (operands x operators x operand forms) on the real compiler+VM against an i128 reference model",
+   "Every pair from a 60-value boundary grid is crossed with every integer operator and every operand form (variable/literal on each side, compound assignment), plus unary minus; each case is compiled (dispatcher-batched) and run on the real VM in a fresh runtime and compared with exact i128 arithmetic followed by a range check.",
+   "Grid, not all 2^128 pairs (small-scope hypothesis on boundary values); negative exponents of ^ are unspecified and not asserted; host-fed variables are assumed to defeat constant folding (the literal forms cover the folder).",
+   "DESIGN.md §3 C15"),
  "C37": ("model_checking",
    "explicit-state BFS over operation histories of the real IdSet against a Vec model; every unit re-executed under AddressSanitizer",
    "All operation histories up to the bound (insert fresh/duplicate/long, clear, clone with original kept/dropped/cleared) on IdSet<T> for four element types are explored breadth-first with value-oblivious state merging; every transition is executed on the real structure and compared with a vector+lookup model, and the whole enumeration is repeated in an ASan build so any use-after-free or overflow inside an explored history aborts and is attributed to that history.",
